@@ -218,6 +218,14 @@ def check_case(case):
     have_a = case["have_a"] and mkzck(os.path.join(d, "A.dat"), os.path.join(d, "A.zck"), segsA, case["comp"])
     B = open(os.path.join(d, "B.zck"), "rb").read(); hb = parse_zck(B)
     Aent = parse_zck(open(os.path.join(d, "A.zck"), "rb").read())["entries"] if have_a else []
+    if have_a and case.get("damage_a") and Aent:
+        # the local source is damaged inside one of its chunks (bit rot): that chunk is not available from it any more, and
+        # nothing that is already correct in the target may suffer from it
+        Ab = bytearray(open(os.path.join(d, "A.zck"), "rb").read()); pa = parse_zck(bytes(Ab)); cand = [e for e in Aent if e["comp"]]
+        if cand:
+            e = cand[case["damage_a"] % len(cand)]; Ab[e["off"] + (case["damage_a"] // 7) % e["comp"]] ^= 0x20
+            open(os.path.join(d, "A.zck"), "wb").write(bytes(Ab)); label("source-with-a-damaged-chunk")
+            Aent = [x for x in Aent if x["comp"] == 0 or dig(pa["cht"], bytes(Ab[x["off"]:x["off"] + x["comp"]])) == x["digest"]]
     # initial target
     t0 = case["target"]
     if t0 == 1 and have_a:
@@ -342,7 +350,7 @@ def base_cases(draw):
     return {"segs": [list(x) for x in draw(st.lists(seg, min_size=1, max_size=14))], "edits": [[a, b, list(c)] for a, b, c in draw(st.lists(st.tuples(st.integers(0, 2), st.integers(0, 20), seg), max_size=4))],
             "have_a": draw(st.booleans()), "target": draw(st.integers(0, 4)), "damage": draw(st.integers(0, 2 ** 15)), "comp": draw(st.sampled_from([None, "none", "zstd"])),
             "max_ranges": draw(st.sampled_from([1, 2, 7, 127, 10 ** 6, 10 ** 6])), "boundary": draw(st.one_of(st.just("00000000000000000001"), st.text(alphabet="0123456789abcdefXYZ", min_size=1, max_size=40), st.sampled_from(["a+b", "x(1)y", "gc0p4Jq0M2Yt08jU534c0p", "=_?:'a"]))),
-            "quoted": draw(st.booleans()), "vary_boundary": draw(st.booleans()), "no_ranges": draw(st.integers(0, 7)) == 0, "fail_no_ranges": draw(st.integers(0, 2)) == 0, "redirect": draw(st.integers(0, 3)) == 0, "kill_after": draw(st.integers(1, 60000)) if A.property == "C11" else draw(st.one_of(st.none(), st.none(), st.none(), st.integers(1, 30000)))}
+            "quoted": draw(st.booleans()), "vary_boundary": draw(st.booleans()), "no_ranges": draw(st.integers(0, 7)) == 0, "fail_no_ranges": draw(st.integers(0, 2)) == 0, "redirect": draw(st.integers(0, 3)) == 0, "damage_a": draw(st.one_of(st.just(0), st.just(0), st.integers(1, 10 ** 6))), "kill_after": draw(st.integers(1, 60000)) if A.property == "C11" else draw(st.one_of(st.none(), st.none(), st.none(), st.integers(1, 30000)))}
 
 
 N = A.cases or (25 if A.tier == "quick" else 400)
